@@ -121,6 +121,24 @@ Definition ask_confirm (interactive : bool) (dflt : bool) (prefix : str) (script
          end
        end.
 
+(* a pattern ^<prefix> WITHOUT the (?i) flag: the case matters (seeded change C18-i compiled every pattern case-insensitively) *)
+Fixpoint starts_with_cs (p s : str) : bool :=
+  match p, s with
+  | [], _ => true
+  | a :: p', b :: s' => N.eqb a b && starts_with_cs p' s'
+  | _ :: _, [] => false
+  end.
+Definition ask_confirm_g (ci : bool) (interactive : bool) (dflt : bool) (prefix : str) (script : list str) : cres * nat :=
+  if negb interactive then (CBool dflt, 0)
+  else match script with
+       | [] => (CAborted, 0)
+       | line :: _ =>
+         match strip_ws line with
+         | [] => (CBool dflt, 1)
+         | typed => (CBool ((if ci then starts_with_ci else starts_with_cs) prefix typed), 1)
+         end
+       end.
+
 (* ---- wire ---- *)
 Definition enc_answer (a : answer) : sexp :=
   match a with AOne v => L [A 0%Z; sStr v] | AMany l => L [A 1%Z; sList sStr l] | ANone => L [A 2%Z] end.
